@@ -94,6 +94,19 @@ def to_sheets(form):
     sheets = {}
     srows = flatten_rows(form.get("nodes", []))
     shead = form.get("survey_header") or header_of(srows, ("type", "name"))
+    order = form.get("survey_col_order")
+    if order:
+        # a permutation given as a list of sort keys (one per column, by index modulo its length)
+        shead = [h for _, _, h in sorted((order[i % len(order)], i, h) for i, h in enumerate(shead))]
+    alias = form.get("survey_alias")
+    if alias:
+        def ren(col):
+            base, sep, rest = col.partition("::")
+            return alias.get(col) or (alias[base] + sep + rest if base in alias else col)
+        shead = [ren(h) for h in shead]
+        srows = [{ren(k): v for k, v in r.items()} for r in srows]
+    if order:
+        srows = [{h: r[h] for h in shead if h in r} for r in srows]
     if "survey_absent" not in form:
         sheets["survey"] = (shead, srows)
     crows = choices_rows(form)
